@@ -226,6 +226,7 @@ type cancelEvent struct {
 	Blocked        bool   `json:"blocked"`
 	Handles        int    `json:"handles"`
 	Entries        int    `json:"entries"`
+	Leaked         string `json:"leaked,omitempty"`
 }
 
 type env struct {
@@ -375,13 +376,36 @@ func oneCancel(ep entryPoint, backend, scratch string, dirs, files, k int) (canc
 	}
 	// fan-out workers that are still running when the call returns close their handles when they end: wait for
 	// the balance to settle (a handle that is still open after that is a leak)
-	for i := 0; i < 100 && gfs.OpenHandles() != 0; i++ {
+	for i := 0; i < 1000 && gfs.OpenHandles() != 0; i++ {
 		time.Sleep(2 * time.Millisecond)
 	}
 	time.Sleep(2 * time.Millisecond)
 	ev.CallsAfter = int(after.Load())
 	ev.Total = int(count.Load())
 	ev.Handles = gfs.OpenHandles()
+	if ev.Handles != 0 {
+		open := map[string]int{}
+		lastLabels := map[string]string{}
+		for _, g := range gate.Log() {
+			switch g.Op {
+			case "Open", "OpenFile", "Create":
+				if g.OK {
+					open[g.Path]++
+				}
+			case "File.Close":
+				if g.OK {
+					open[g.Path]--
+				}
+			}
+			lastLabels[g.Path] = g.Op
+		}
+		for p, n := range open {
+			if n > 0 {
+				ev.Leaked += fmt.Sprintf("%s(+%d,last %s) ", p, n, lastLabels[p])
+			}
+		}
+		ev.Leaked += fmt.Sprint(gfs.OpenNames())
+	}
 	if k < 0 {
 		ev.Mutated = len(sandbox.Diff(before, sandbox.Take(e.base, e.root), "")) > 0
 	}
